@@ -547,7 +547,7 @@ def run(ctx):
     # the end-to-end oracle; when something above broke, spend more of the budget searching
     end_to_end(ctx, budget_s=ctx.n(75, 700) * (1.5 if broken else 1), n_pairs=ctx.n(14, None), n_noise=ctx.n(2, 5))
     if not broken:
-        lines_family_search(ctx, n_pairs_per_isa=ctx.n(1, 8), n_random=ctx.n(4, 20), budget_s=ctx.n(25, 300))
+        lines_family_search(ctx, n_pairs_per_isa=ctx.n(1, 8), n_random=ctx.n(4, 20), budget_s=ctx.n(25, 200))
     ctx.coverage["model_variant"] = variant
 
 
